@@ -1,6 +1,6 @@
 """C01 — decoding untrusted bytes is total (claimed in part): R-LIMIT, R-RAWINT, R-EOF, R-BLOCK."""
 from ..engine import Ctx, LIB_CRATES
-from . import rawint, limit, block, taintalloc
+from . import rawint, limit, block, taintalloc, fieldrange
 
 
 def main(pid, tier, repo=None):
@@ -9,6 +9,7 @@ def main(pid, tier, repo=None):
     for cfg in configs:
         ctx.use_config(cfg)
         rawint.run(ctx, LIB_CRATES)
+        fieldrange.run(ctx, LIB_CRATES)
         limit.run(ctx, LIB_CRATES)
         taintalloc.run(ctx, LIB_CRATES)
         block.run_block(ctx, LIB_CRATES)
@@ -22,7 +23,9 @@ def main(pid, tier, repo=None):
     ctx.not_decided("absence of panics in general (thousands of overflow/bounds asserts depend on invariants established elsewhere)")
     ctx.not_decided("termination of loops whose trip count is validated in another function; Brotli output size")
     return ctx.finish(
-        "The four mechanisms the property names, decided on MIR for every input: (R-RAWINT) raw entropy-decoded integers never reach "
+        "The mechanisms the property names, decided on MIR for every input: (R-FIELDRANGE) header fields with a width-implied range never "
+        "reach an overflow-checked operation, shift, division or fixed-size array index they can break (interval abstract interpretation; "
+        "found the `length-minus-header` panics D9-D11); (R-RAWINT) raw entropy-decoded integers never reach "
         "panicking 32-bit arithmetic, shift amounts, divisors, negation or abs() without a dominating ordering comparison - every "
         "report is a reachable panic because the stream chooses the integer configuration; (R-LIMIT) the named input limits exist as "
         "compare->error checks with the reviewed bound; (R-EOF) the bit counter is only decreased through checked_sub and end of data "
